@@ -7,7 +7,7 @@ Import ListNotations.
 
 Definition coh_op (o : op) : bool :=
   match o with
-  | OMkdir _ _ | OCreate _ _ | OMknod _ _ | OSymlink _ _ | OUnlink _
+  | OMkdir _ _ | OCreate _ _ | OMknod _ _ | OSymlink _ _ | OUnlink _ | ORmdir _
   | OOpen _ _ | OWrite _ _ _ | OChmod _ _ | OTruncate _ _ => true
   | OSetxattr _ k _ | ORemovexattr _ k => negb (is_opq_name k)     (* not one of the overlay's own opaque markers *)
   | _ => readonly_op o
@@ -20,6 +20,7 @@ Proof.
   - apply cpres_mknod. exact HC.
   - apply cpres_symlink. exact HC.
   - apply cpres_unlink. exact HC.
+  - apply cpres_rmdir. exact HC.
   - apply cpres_open. exact HC.
   - apply cpres_write. exact HC.
   - apply cpres_chmod. exact HC.
